@@ -34,7 +34,7 @@ type Plan struct {
 	// error) and a write at the limit fails with LimitErrno. -1 = no limit.
 	LimitBytes int
 	LimitErrno unix.Errno
-	// FailOp ("openat", "close", "renameat", "fsync", "unlinkat") fails with FailErrno on the plan's file.
+	// FailOp ("openat", "close", "renameat", "fsync", "unlinkat", "read") fails with FailErrno on the plan's file.
 	FailOp    string
 	FailErrno unix.Errno
 	// Crash: die when the CrashAt-th syscall (0-based, counted among calls touching the plan's file) is about to be
@@ -65,6 +65,10 @@ type state struct {
 	writes  map[string]int // number of write calls per file
 	onCrash func()
 	crashed bool
+	// descriptor discipline: descriptors closed through the seam and not handed out again by it; a second close of such a
+	// number hits whatever file another goroutine was given that number in between
+	closed map[int]string
+	misuse []string
 }
 
 var st = &state{fdName: map[int]string{}, written: map[string]int{}}
@@ -85,6 +89,15 @@ func Begin(p Plan, onCrash func()) {
 	st.written = map[string]int{}
 	st.onCrash = onCrash
 	st.crashed = false
+	st.closed = map[int]string{}
+	st.misuse = nil
+}
+
+// Misuse returns the descriptor-discipline violations seen since Begin (a descriptor closed twice).
+func Misuse() []string {
+	st.mu.Lock()
+	defer st.mu.Unlock()
+	return append([]string(nil), st.misuse...)
 }
 
 // End deactivates the seam and returns the log.
@@ -184,6 +197,7 @@ func Openat(dirfd int, path string, flags int, mode uint32) (int, error) {
 	}
 	fd, err := unix.Openat(dirfd, path, flags, mode)
 	if err == nil {
+		delete(st.closed, fd)
 		st.fdName[fd] = path
 		if flags&unix.O_TRUNC != 0 {
 			st.written[path] = 0
@@ -264,6 +278,13 @@ func Close(fd int) error {
 		st.mu.Unlock()
 		return unix.Close(fd)
 	}
+	if was, twice := st.closed[fd]; twice {
+		// the number is free (or already someone else's): the real close is not issued, it could hit an unrelated descriptor
+		st.misuse = append(st.misuse, fmt.Sprintf("descriptor %d (opened for %q) is closed a second time", fd, was))
+		st.record(Call{Op: "close", Name: was, Err: "EBADF (second close)"})
+		st.mu.Unlock()
+		return unix.EBADF
+	}
 	name := st.fdName[fd]
 	_, die := st.pre("close", name)
 	if die {
@@ -273,6 +294,9 @@ func Close(fd int) error {
 		unix.Ftruncate(fd, int64(st.plan.CloseKeeps))
 	}
 	err := unix.Close(fd)
+	if _, ours := st.fdName[fd]; ours {
+		st.closed[fd] = name
+	}
 	delete(st.fdName, fd)
 	if err == nil && st.matches(name) && st.plan.FailOp == "close" {
 		err = st.plan.FailErrno
@@ -289,6 +313,12 @@ func Read(fd int, p []byte) (int, error) {
 		return unix.Read(fd, p)
 	}
 	name := st.fdName[fd]
+	if st.matches(name) && st.plan.FailOp == "read" {
+		// the open succeeded, the read does not (medium error, a directory carrying a chunk name)
+		st.record(Call{Op: "read", Name: name, N: len(p), Ret: -1, Err: st.plan.FailErrno.Error()})
+		st.mu.Unlock()
+		return -1, st.plan.FailErrno
+	}
 	n, err := unix.Read(fd, p)
 	st.record(Call{Op: "read", Name: name, N: len(p), Ret: n, Err: errStr(err)})
 	st.mu.Unlock()
